@@ -394,21 +394,65 @@ func runC10Atomic(c *Ctx) {
 			seen[f] = true
 			n++
 			construct := "(*" + typ + ").FindMetadata|store after a miss through " + FuncName(f)
-			// the store is control-dependent on a comma-ok lookup of the same map in the same function, with the lock held
-			guarded := false
+			// the store is control-dependent on a comma-ok lookup of the same key in the same map, and both lie in one
+			// critical section of the write lock: a write Lock() dominates the lookup and no Unlock/RUnlock can run
+			// between that Lock() and the store
+			var lookups []*ssa.Lookup
 			for ifi, outcome := range controllingConds(upd.Block()) {
-				if t, _ := lookupCond(ifi.Cond); t == typ+".cache" && !outcome {
-					guarded = true
+				if t, key := lookupCond(ifi.Cond); t == typ+".cache" && !outcome && key == upd.Key {
+					if lk, ok := ifi.Cond.(*ssa.Extract).Tuple.(*ssa.Lookup); ok {
+						lookups = append(lookups, lk)
+					}
 				}
 			}
-			locked := len(findCalls(f, "(*sync.RWMutex).Lock")) > 0 || len(findCalls(f, "(*sync.Mutex).Lock")) > 0
+			var locks, unlocks []ssa.CallInstruction
+			for _, nm := range []string{"(*sync.RWMutex).Lock", "(*sync.Mutex).Lock"} {
+				for _, call := range findCalls(f, nm) {
+					if _, isCall := call.(*ssa.Call); isCall {
+						locks = append(locks, call)
+					}
+				}
+			}
+			for _, nm := range []string{"(*sync.RWMutex).Unlock", "(*sync.Mutex).Unlock", "(*sync.RWMutex).RUnlock"} {
+				for _, call := range findCalls(f, nm) {
+					if _, isCall := call.(*ssa.Call); isCall { // a deferred unlock runs when the function returns
+						unlocks = append(unlocks, call)
+					}
+				}
+			}
+			// the lock is held from k to the store
+			heldFrom := func(k ssa.Instruction) bool {
+				if !dom(k, upd) {
+					return false
+				}
+				for _, u := range unlocks {
+					if instrReachableAfter(k, u) && instrReachableAfter(u, upd) {
+						return false
+					}
+				}
+				return true
+			}
+			storeLocked, sameSection := false, false
+			for _, k := range locks {
+				if !heldFrom(k) {
+					continue
+				}
+				storeLocked = true
+				for _, lk := range lookups {
+					if dom(k, lk) {
+						sameSection = true
+					}
+				}
+			}
 			switch {
-			case guarded && locked:
-				c.ok(construct, upd.Pos(), "the entry is stored only when the key is still absent, under the write lock: exactly one caller sees the miss")
-			case !locked:
-				c.bad(construct, upd.Pos(), "the cache map is written without the lock")
+			case sameSection:
+				c.ok(construct, upd.Pos(), "the entry is stored only when a look-up of the same key, made after the write lock that is still held at the store, found it absent: exactly one caller sees the miss")
+			case !storeLocked:
+				c.bad(construct, upd.Pos(), "the cache map is written without the write lock held")
+			case len(lookups) == 0:
+				c.bad(construct, upd.Pos(), "the store does not depend on a look-up of its key: every goroutine that missed stores its own result and reports the action's defects again (1..N reports depending on scheduling)")
 			default:
-				c.bad(construct, upd.Pos(), "look-up and store are separate critical sections: every goroutine that missed stores its own result and reports the action's defects again (1..N reports depending on scheduling)")
+				c.bad(construct, upd.Pos(), "look-up and store are separate critical sections: the key can be stored by another goroutine between them, so every goroutine that missed stores its own result and reports the action's defects again (1..N reports depending on scheduling)")
 			}
 		})
 		if n == 0 {
